@@ -252,10 +252,10 @@ def linear_case(draw):
 
 
 @st.composite
-def pair_case(draw, variants, nmax):
+def pair_case(draw, variants, nmax, classes=None, high_p=False):
     variant = draw(st.sampled_from(variants))
     need = smooth.min_valid(variant)
-    s = draw(gens.series(nmin=max(4, need), nmax=nmax, vmax=8000))
+    s = draw(gens.series(nmin=max(4, need), nmax=nmax, vmax=8000, classes=classes))
     n = len(s["y"])
     g = draw(gens.gap_mask(n, min_valid=need))
     lo, hi = min(s["y"]), max(s["y"])
@@ -265,7 +265,10 @@ def pair_case(draw, variants, nmax):
     kind = draw(st.sampled_from(["below", "above", "inside"]))
     nd = gens.placeholder_for(s["y"], g["valid"], kind)
     case = {"variant": variant, "y": s["y"], "valid": g["valid"], "nodata": nd, "c": c, "ycls": s["cls"], "gcls": g["gcls"]}
-    return draw(params(variant, case))
+    case = draw(params(variant, case))
+    if high_p and "p" in case:
+        case["p"] = draw(st.sampled_from([0.8, 0.9, 0.95, 0.99, 0.85]))
+    return case
 
 
 def _is_linear(y, valid):
@@ -295,6 +298,10 @@ def run(ctx):
                  cls=[case["variant"], "gap:" + case["gcls"], "y:" + case["ycls"]])
 
     ctx.given("offset", pair_case(smooth.VARIANTS, ctx.n(120, 200)), ctx.n(900, 12000), fn=f_off)
+    # asymmetric variants on smooth low-noise data with a strong envelope: the regime where an iteration that is not run to its
+    # fixed point depends on where the data sit relative to the zero start curve
+    ctx.given("offset", pair_case(["pgu", "pgu", "optvp", "wcvp", "optvplc"], ctx.n(80, 200), classes=["lownoise", "lownoise", "seasonal"], high_p=True),
+              ctx.n(500, 6000), fn=f_off)
 
     @st.composite
     def tyx_case(draw):
@@ -326,3 +333,5 @@ def run(ctx):
                  cls=[case["variant"], "gap:" + case["gcls"], "y:" + case["ycls"]])
 
     ctx.given("reverse", pair_case(sorted(smooth.REVERSIBLE), ctx.n(120, 200)), ctx.n(700, 10000), fn=f_rev)
+    # the V-curve criteria must not treat the two ends of the series differently: large residuals at the first / last step
+    ctx.given("reverse", pair_case(["optv", "optvp", "optvplc"], ctx.n(80, 200), classes=["edge_outlier"]), ctx.n(400, 5000), fn=f_rev)
